@@ -8,7 +8,8 @@ Case line:  `<BUF> <hex input|-> <schedule|-> ; <op> ; <op> ; …`
   is left are skipped.
 * ops: `r:<atom>`, `t:<atom>,<atom>…` (2..8), `v:<n>:<atom>[,<atom>…]`, `line`, `lines`, `eof`;
   atoms `i8 … usize`, `str`, `chr`.
-Answer: `M <all model results> | V <model results of the in-domain prefix>[ ~] | S <spec results of that prefix>[ ~]`;
+Answer: `M <model results of the in-domain prefix>[ ~] | V <the same> | S <spec results of that prefix>[ ~]`; with a
+4th header token `full`: `M <all model results> | V any | S any` (out-of-domain twins, differences only counted);
 the model runs on the event list with the given BUF, the spec on the plain input bytes. The in-domain prefix
 (`domPrefix`) ends at the first operation that reads an invalid / out-of-range integer token or a token when none
 is left; ` ~` marks that the script goes on outside the property's domain.
@@ -111,7 +112,10 @@ def handle (line : String) : String :=
   match splitOps line with
   | [] => badLine line
   | hdr :: ops =>
-    match tokens hdr with
+    let (hdrToks, full) := match tokens hdr with
+      | [a, b, c, "full"] => ([a, b, c], true)
+      | ts => (ts, false)
+    match hdrToks with
     | [bufS, hexS, schedS] =>
       match bufS.toNat?, parseHexBytes hexS, parseSched schedS, ops.mapM parseOp with
       | some BUF, some input, some sched, some script =>
@@ -119,12 +123,14 @@ def handle (line : String) : String :=
         let src := mkEvents sched input #[]
         let fuel := input.length + 1
         let model := runScript fuel script (init BUF src)
+        -- header flag `full` (twins of the out-of-domain stream): all model results, no constraint
+        if full then answer3 (showTrace model) "any" "any" else
         let spec := specScript script input
         -- the property constrains the in-domain prefix of the script (valid tokens, no read past the end);
-        -- `~` marks that later operations are outside it (their raw results are still compared: `M`)
+        -- `~` marks that later operations are outside it: they are not compared on this line
         let n := domPrefix script input
         let mark := if n < script.length then " ~" else ""
-        answer3 (showTrace model) (showTrace (model.take n) ++ mark) (showTrace (spec.take n) ++ mark)
+        answer (showTrace (model.take n) ++ mark) (showTrace (spec.take n) ++ mark)
       | _, _, _, _ => invalid
     | _ => invalid
 
